@@ -26,7 +26,7 @@ package statecache
 // they are bare tombstones.
 //@ pred BlockWF(bc *BlockCache) = bc != nil && bc.cache != nil && SCShape(bc.main) && (forall k string :: k in bc.cache ==> bc.cache[k].deleted || bc.cache[k].data != nil)
 //@ pred TxnWF(tc *TransactionCache) = tc.cache != nil && tc.main != nil && (forall k string :: k in tc.cache ==> tc.cache[k].data != nil)
-//@    | && (tc.main is *BlockCache ==> BlockWF(tc.main.(*BlockCache)))
+//@    | && (tc.main is *BlockCache ==> BlockWF(tc.main.(*BlockCache)) && tc.main.(*BlockCache).cache != tc.cache)
 //@    | && (tc.main is *QueryBlockCache ==> tc.main.(*QueryBlockCache) != nil && SCShape(tc.main.(*QueryBlockCache).sc))
 
 // ================= C07: writes are private until commit; values are never shared =================
@@ -66,6 +66,9 @@ package statecache
 //@   mode wrap
 //@   requires TxnWF(tc) && tc.main is *BlockCache
 //@   ensures len(tc.cache) == 0                                                                                              #emptied
+//@   loop 1 invariant tc.main is *BlockCache && tc.main.(*BlockCache).cache != nil && tc.main.(*BlockCache).cache != tc.cache && tc.cache != nil
+//@      | && (forall k string :: (k in tc.cache) == old(k in tc.cache) && tc.cache[k] == old(tc.cache[k]))                   #own-map-untouched-while-committing
+//@   loop 1 latch key in tc.main.(*BlockCache).cache && tc.main.(*BlockCache).cache[key].deleted == value.deleted && Copy(tc.main.(*BlockCache).cache[key].data, value.data)      #entry-handed-over-as-copy
 
 // A block's writes touch only its own pending map.
 //@ func (*BlockCache).Set
@@ -137,3 +140,24 @@ package statecache
 //@   mode wrap
 //@   requires qbc.sc != nil && SCShape(qbc.sc)
 //@   assigns ghost(LruHas), ghost(LruVal)
+
+// Commit of a block: every pending entry is stored under (key, block hash) as a copy, the parent link
+// is published only after all keys are written, and the pending map is emptied; a block that is
+// already committed changes nothing.
+//@ func (*StateCache).commit
+//@   props C06 C07
+//@   mode wrap
+//@   requires SCShape(sc) && bc != nil && bc.cache != nil && (forall k string :: k in bc.cache ==> bc.cache[k].deleted || bc.cache[k].data != nil)
+//@   ensures SCShape(sc)                                                                                                     #shape-kept
+//@   ensures old(LruHas[sc.hashCache][iface(bc.blockHash)]) ==> bc.cache == old(bc.cache) && LruHas == old(LruHas) && LruVal == old(LruVal)      #recommit-is-noop
+//@   ensures !old(LruHas[sc.hashCache][iface(bc.blockHash)]) ==> len(bc.cache) == 0 && LruHas[sc.hashCache][iface(bc.blockHash)] && LruVal[sc.hashCache][iface(bc.blockHash)] == iface(bc.prevBlockHash)      #published-with-parent
+//@   loop 1 invariant SCShape(sc) && !LruHas[sc.hashCache][iface(bc.blockHash)] && LruHas[sc.hashCache] == old(LruHas[sc.hashCache]) && LruVal[sc.hashCache] == old(LruVal[sc.hashCache])      #not-yet-published
+//@   loop 1 latch LruHas[sc.cache][iface(key)] && LruHas[LruVal[sc.cache][iface(key)].(*lru.Cache)][iface(bc.blockHash)]
+//@      | && LruVal[LruVal[sc.cache][iface(key)].(*lru.Cache)][iface(bc.blockHash)] is valueNode
+//@      | && LruVal[LruVal[sc.cache][iface(key)].(*lru.Cache)][iface(bc.blockHash)].(valueNode).deleted == bc.cache[key].deleted
+//@      | && (bc.cache[key].data != nil ==> Copy(LruVal[LruVal[sc.cache][iface(key)].(*lru.Cache)][iface(bc.blockHash)].(valueNode).data, bc.cache[key].data))      #entry-committed-as-copy
+
+//@ func (*BlockCache).Commit
+//@   props C07
+//@   mode wrap
+//@   requires BlockWF(pcc)
